@@ -6,6 +6,7 @@ import numpy as np
 from harness import core
 from harness.props import c17_ext
 from harness.props import c17_ext2
+from harness.props import c17_ext3
 
 ID = 'C17'
 LEAN_MODULES = ['PydlVerif.Props.C17']
@@ -24,7 +25,10 @@ THEOREMS = [P + t for t in (
     'aesthetics_full_only_bad', 'aesthetics_clean', 'aesthetics_unknown_raises', 'aesthetics_is_maskinterp', 'aesthetics_nothing',
     'aesthetics_replaced_values', 'aesthetics_mean_values', 'aesthetics_mean_exact',
     'damp_formula', 'damp_values', 'damp_ends_good', 'damp_halves_first_good', 'damp_no_good_raises',
-    'maskinterp_all_masked', 'maskinterp_refusals', 'reject_refusals')]
+    'maskinterp_all_masked', 'maskinterp_refusals', 'reject_refusals',
+    # third extension round
+    'maxrej_never_limits', 'maxrej_ok_is_rule', 'maxrej_ignored_when_skipped', 'maxrej_1d_ignored', 'maxrej_nogroupdim_ignored',
+    'maxrej_nd_groupdim_raises', 'maxrej_checks_clauses', 'groupbadpix_no_groups', 'skymask_image')]
 RULE = ('djs_reject: every combination of sigma-scalar/sigma-array/invvar/none x lower/upper/maxdev set or not x inmask/outmask '
         'given or not x sticky x grow 0..3 on 1-D data of 0..14 pixels (exact dyadic residuals placed on a grid of k*sigma away '
         'from the limits, plus random floats), 2-D data with grow=0, shape mismatches; djs_maskinterp: 1-3-D (and 0/4-D refusals), '
@@ -36,6 +40,9 @@ RULE = ('djs_reject: every combination of sigma-scalar/sigma-array/invvar/none x
         'inmask/outmask/sticky, every outlier pattern on small 2-D/3-D arrays (<= 6 / 9 pixels) x grow 0..3; maxrej-observed = calls WITH '
         'maxrej, counted only (ignored / applied / raises), never judged; med2 = 2-D reflecting median incl. axes of length 1, axes shorter '
         'than the padding, even widths; damp = aesthetics(damp) with leading/trailing/no bad pixels, no good pixel, a 600-pixel spectrum. '
+        'Third extension (c17_ext3.py): rejm = djs_reject WITH maxrej scalar/list/ndarray x groupdim/groupsize None/scalar/list/ndarray (consistent or not) x groupbadpix on 0-4-D data '
+        '(axes of length 0, 1, 2.., shape mismatches, model=None) plus a grid over all small shapes; skyi = skymask on images of 0-4 rows, ngrow -1..5, non-2-D refusals; med2s = 2-D reflecting '
+        'median around axes of length 1 / shorter than ceil(w/2) / width > size. '
         'Second extension (c17_ext2.py): medb / med2b = djs_median 1-D (n 1..30) / 2-D (axes 1..11) x widths 1..11 odd and even x boundary '
         'none/reflect/nearest/wrap/unknown; aesf = aesthetics with all five methods and an unknown one on clean, partly masked (leading / '
         'trailing / inner runs) and fully masked spectra')
@@ -808,6 +815,7 @@ def run(ctx):
     _skymask(ctx)
     c17_ext.run_all(ctx)
     c17_ext2.run_all(ctx)
+    c17_ext3.run_all(ctx)
 
 
 def replay(ctx, case):
@@ -823,6 +831,8 @@ def replay(ctx, case):
         c17_ext.replay(ctx, case)
     elif s in ('medb', 'med2b', 'aesf'):
         c17_ext2.replay(ctx, case)
+    elif s in ('rejm', 'skyi', 'med2s'):
+        c17_ext3.replay(ctx, case)
     else:
         run(ctx)
 
@@ -841,14 +851,18 @@ LEVEL_TEXT = ('Machine-checked Lean 4 theorems over executable models of djs_rej
               'positive invvar, traditional/noconst = djs_maskinterp with the explicit replaced values (straight line between the good neighbours, constant ends), '
               'damp = that result times the two erf factors of the code at EVERY pixel (good pixels unchanged exactly when first and last pixel are good; '
               'first good pixel halved when bad pixels lead), ValueError without a good pixel; djs_maskinterp with no unmasked sample returns the input, its refusals, the '
-              'refusals / model=None return of djs_reject. The models are tied to the repository on every run by bit-exact I/O correspondence '
+              'refusals / model=None return of djs_reject. Third extension: djs_reject called WITH maxrej is modelled as the code is (option checks, djs_laxisnum, Python max/range '
+              'on the dimnum array; the loop body is a parameter) and proved never to limit anything: a call that returns, returns exactly the result of the call without maxrej '
+              '(so the rejection rule carries over), 1-D data / no groupdim: equal to the call without maxrej, N-D data with groupdim: always an exception, the len() checks, the '
+              'groupbadpix group starts are always empty; skymask on whole images: every row on its own, every ngrow (<= 0 = no dilation), non-2-D refused. The models are tied to the repository on every run by bit-exact I/O correspondence '
               'over all option combinations and checked against independent oracles (scipy.ndimage, numpy.median, direct restatement).')
 LEVEL_NOTE = ('Trusted: Lean kernel, axioms propext/Classical.choice/Quot.sound at most, the hand-written models (validated only by the '
               'correspondence sample). Parameters, not verified: argsort, the window median kernel (1-D and 2-D: any function of the window), numpy mean/std '
               '(aesthetics("mean") is proved for the mean handed over; aesthetics_mean_exact instantiates it with the exact sum/count), sqrt, scipy erf (any function; '
               'damp_halves_first_good assumes erf 0 = 0). Theorems are over '
-              'exact ordered fields, not IEEE floats. Not covered: djs_reject called WITH maxrej (outside the statement; the repository ignores it for '
-              '1-D data and raises for N-D data with groupdim - recorded as observation only). Modelled and compared but not proved: the 2-D reflecting median when an axis has '
+              'exact ordered fields, not IEEE floats. djs_reject called WITH maxrej is outside the property statement: it is modelled, compared (stream rejm: masks, qdone, exception kinds) and characterised by theorems, but the statement '
+              'oracle does not judge it; the repository never applies maxrej (ignored for 1-D data and without groupdim, raises for N-D data with groupdim) - recorded as behaviour, not fixed; '
+              'lines 380-427 (the loop body) are proved unreachable, their model maxrejBody is a reading no input can test - the theorems hold for any body. Modelled and compared (stream med2s with an independent oracle) but not proved: the 2-D reflecting median when an axis has '
               'length 1 < ceil(w/2) (numpy broadcasts it) or when width > array.size (kernel min(width, size)); aesthetics("damp") uses float32 pixel numbers in the code - exact for '
               'spectra shorter than 2^24 pixels, the model uses the integers. "aesthetics changes flux only where invvar = 0" is proved for traditional, noconst, mean (invvar >= 0), nothing; '
               'for damp it is FALSE by design (IDL too) and the exact factors are proved instead. Domain: lower, upper >= 0, maxdev > 0, sigma >= 0, invvar >= 0 in aesthetics_only_bad, '
